@@ -18,7 +18,12 @@
 (***************************************************************************)
 EXTENDS GraphTheory
 
-CONSTANTS MaxOps, OracleN          \* behaviours of at most MaxOps operations; oracle cross-check up to OracleN vertices
+CONSTANTS MaxOps, OracleN,         \* behaviours of at most MaxOps operations; oracle cross-check up to OracleN vertices
+          Starts,                  \* which of "k4" (planar), "k5", "k33" a behaviour may start from
+          GlueK5,                  \* whether a K5 block may be glued on (turns a planar graph into a non-planar one)
+          Randomised               \* TRUE for simulation: every class of operation offers ONE randomly parameterised successor, so that
+                                   \* TLC's uniform choice among successors is uniform over the classes (long, balanced behaviours);
+                                   \* FALSE for exhaustive exploration: every parameter value is a successor
 VARIABLES G, faces, kind, phase, hist
 vars == <<G, faces, kind, phase, hist>>
 
@@ -27,9 +32,9 @@ K4  == MkGraph(4, AllPairs(4))
 K5  == MkGraph(5, AllPairs(5))
 K33 == MkGraph(6, { e \in AllPairs(6) : Min(e) < 3 /\ Max(e) >= 3 })
 
-Init == \/ G = K4 /\ faces = { {0,1,2}, {0,1,3}, {0,2,3}, {1,2,3} } /\ kind = "planar" /\ phase = 1 /\ hist = << Op("k4", 0, 0, <<>>) >>
-        \/ G = K5 /\ faces = {} /\ kind = "nonplanar" /\ phase = 2 /\ hist = << Op("k5", 0, 0, <<>>) >>
-        \/ G = K33 /\ faces = {} /\ kind = "nonplanar" /\ phase = 2 /\ hist = << Op("k33", 0, 0, <<>>) >>
+Init == \/ "k4" \in Starts /\ G = K4 /\ faces = { {0,1,2}, {0,1,3}, {0,2,3}, {1,2,3} } /\ kind = "planar" /\ phase = 1 /\ hist = << Op("k4", 0, 0, <<>>) >>
+        \/ "k5" \in Starts /\ G = K5 /\ faces = {} /\ kind = "nonplanar" /\ phase = 2 /\ hist = << Op("k5", 0, 0, <<>>) >>
+        \/ "k33" \in Starts /\ G = K33 /\ faces = {} /\ kind = "nonplanar" /\ phase = 2 /\ hist = << Op("k33", 0, 0, <<>>) >>
 
 Room == Len(hist) < MaxOps
 (* a new vertex inside the triangular face f, joined to its three corners *)
@@ -47,7 +52,7 @@ Pendant(v)  == /\ Room /\ phase = 2 /\ v \in Verts(G.n)
 Isolated    == /\ Room /\ phase = 2
                /\ G' = AddVertex(G, {}) /\ hist' = Append(hist, Op("addvertex", 0, 0, <<>>)) /\ UNCHANGED <<faces, kind, phase>>
 (* a new block: a complete graph on v and k new vertices glued at v.  k = 3 (K4) keeps the kind, k = 4 (K5) makes the graph non-planar *)
-Glue(v, k) == /\ Len(hist) + k <= MaxOps /\ phase = 2 /\ v \in Verts(G.n) /\ k \in {3, 4}
+Glue(v, k) == /\ Len(hist) + k <= MaxOps /\ phase = 2 /\ v \in Verts(G.n) /\ k \in {3, 4} /\ (k = 4 => GlueK5)
               /\ LET n == G.n
                      new == n..(n + k - 1)
                      ops == [i \in 1..k |-> Op("addvertex", 0, 0, SortedSeq({v} \cup (n..(n + i - 2))))] IN
@@ -59,17 +64,30 @@ AddEdgeNP(e) == /\ Room /\ kind = "nonplanar" /\ e \in AllPairs(G.n) \ G.E
 AddVertexNP(S) == /\ Room /\ kind = "nonplanar" /\ S \subseteq Verts(G.n)
                /\ G' = AddVertex(G, S) /\ hist' = Append(hist, Op("addvertex", 0, 0, SortedSeq(S))) /\ UNCHANGED <<faces, kind, phase>>
 
+(* a new component: a path on k new vertices (planarity is a property of the components) *)
+NewPath(k) == /\ Len(hist) + k <= MaxOps /\ phase = 2 /\ k \in {2, 3}
+              /\ LET n == G.n
+                     ops == [i \in 1..k |-> Op("addvertex", 0, 0, IF i = 1 THEN <<>> ELSE <<n + i - 2>>)] IN
+                 /\ G' = [n |-> n + k, E |-> G.E \cup { {n + i - 1, n + i} : i \in 1..(k - 1) }]
+                 /\ hist' = hist \o ops
+              /\ UNCHANGED <<faces, kind, phase>>
+
 (* the vertices that new edges / vertices of the non-planar generator attach to: keeps the branching of long behaviours small *)
 Window == { v \in Verts(G.n) : v < 2 \/ v >= G.n - 3 }
-Next == \/ \E f \in faces : Stellate(f)
-        \/ EndPhase1
-        \/ \E e \in G.E : DelEdge(e) \/ Subdivide(e)
-        \/ \E v \in Verts(G.n) : Pendant(v)
-        \/ Isolated
-        \/ \E v \in Window, k \in {3, 4} : Glue(v, k)
-        \/ \E a \in Window, b \in Verts(G.n) : a # b /\ AddEdgeNP({a, b})
-        \/ \E a, b, c \in Window : AddVertexNP({a, b, c})               \* 1, 2 or 3 neighbours among a few old and the newest vertices
-        \/ AddVertexNP({})
+Pick(S) == IF Randomised THEN (IF S = {} THEN {} ELSE { RandomElement(S) }) ELSE S
+Often(k) == ~Randomised \/ RandomElement(1..k) = 1            \* in simulation: take this class only once in k times it is offered
+Next == \/ \E f \in Pick(faces) : Stellate(f)
+        \/ Often(10) /\ EndPhase1
+        \/ Often(3) /\ \E e \in Pick(G.E) : DelEdge(e)
+        \/ \E e \in Pick(G.E) : Subdivide(e)
+        \/ \E v \in Pick(Verts(G.n)) : Pendant(v)
+        \/ Often(2) /\ Isolated
+        \/ \E v \in Pick(Window) : Glue(v, 3)
+        \/ \E v \in Pick(Window) : Glue(v, 4)
+        \/ \E k \in Pick({2, 3}) : NewPath(k)
+        \/ \E a \in Pick(Window), b \in Pick(Verts(G.n)) : a # b /\ AddEdgeNP({a, b})
+        \/ \E a \in Pick(Window), b \in Pick(Window), c \in Pick(Window) : AddVertexNP({a, b, c})               \* 1, 2 or 3 neighbours among a few old and the newest vertices
+        \/ Often(2) /\ AddVertexNP({})
 Spec == Init /\ [][Next]_vars
 
 (* ---- properties of the generator itself ---- *)
